@@ -736,3 +736,33 @@ Proof.
   rewrite (eval_matches_doc rv d index distance conds Hrv) in *.
   destruct (doc_eval d index distance conds) as [b|b|b]; [reflexivity|exfalso; exact (NF b eq_refl)|reflexivity].
 Qed.
+
+(* path search ("Paths"): an element that passes costs 1 and is selected, one that fails costs 2,
+   one beyond which the search is not to continue (Stop) costs 0 = its paths are dropped *)
+Theorem path_cost_doc rv d conds index distance :
+  fix_strict_order rv = true ->
+  path_cost rv d conds index distance =
+  match doc_eval d index distance conds with
+  | Continue add => (if add then 1 else 2, add)
+  | Stop add => (0, add)
+  | Finish add => (0, add)
+  end /\ kind_of (doc_eval d index distance conds) <> KFinish.
+Proof.
+  intros Hrv. unfold path_cost. pose proof (no_finish rv d index distance conds) as NF.
+  rewrite (eval_matches_doc rv d index distance conds Hrv) in *.
+  split; [destruct (doc_eval d index distance conds); reflexivity|].
+  destruct (doc_eval d index distance conds) as [b|b|b]; [discriminate|exact (fun _ => NF b eq_refl)|discriminate].
+Qed.
+
+(* the pinned evaluator did NOT meet the documented semantics: element 1 has age = 5_u64,
+   the condition is age > 30_i64 *)
+Definition strict_example_db : db :=
+  {| gr := graph_new; aliases := imap_empty; vals := [[]; [(DString [x61; x67; x65], DU64 5)]];
+     indexes := []; undo := [] |}.
+
+Lemma eval_matches_doc_pinned_refuted :
+  let conds := [Cond LAnd MNone (CKeyValue (DString [x61; x67; x65]) CGreaterThan (DI64 30))] in
+  eval_conditions rv_pinned strict_example_db 1 0 conds = Continue true /\
+  doc_eval strict_example_db 1 0 conds = Continue false /\
+  eval_conditions rv_fixed strict_example_db 1 0 conds = Continue false.
+Proof. cbv zeta. repeat split. Qed.
